@@ -38,7 +38,7 @@ def generic_run(tier, seed, drv, *, monitors_on, corr, nested=True, flat=True, c
         if i % 4 == 2 and "start_delays" not in scn:
             # ... and through tickit's own loading path: configuration FILE -> read_configs -> build_simulation (one
             # simulation or divided over several on one bus) -> TickitSimulation.run()
-            fs = SC.as_config_file(scn, rng)
+            fs = SC.as_config_file(scn, rng, split=(i % 8 < 4))
             b = rng.choice(("sync", "held", "internal"))
             sd = rng.randrange(1 << 30)
             run = run_scenario(fs, bus=b, seed=sd)
